@@ -2186,6 +2186,104 @@ fn check_long(c: &LongCase, ctx: &mut CaseCtx<'_>) -> Result<(), String> {
     Ok(())
 }
 
+// ---------------------------------------------------------------------------------------
+// rejected appends: an entry whose append FAILED without writing a byte is never recovered
+// ---------------------------------------------------------------------------------------
+
+#[derive(Clone, Debug, Hash, Serialize, Deserialize)]
+struct RejectCase {
+    /// (log selector: two logs over two stores are written alternately from ONE thread, payload, stamp)
+    writes: Vec<(bool, Vec<u8>, u64)>,
+    /// append-call indices (per store, file-header appends included) that the store rejects
+    reject_a: Vec<u8>,
+    reject_b: Vec<u8>,
+    max_file_size: u32,
+}
+
+fn reject_case() -> impl Strategy<Value = RejectCase> {
+    (
+        proptest::collection::vec(
+            (prop::bool::weighted(0.7), proptest::collection::vec(any::<u8>(), 1..=60), stamp()),
+            2..=12,
+        ),
+        proptest::collection::vec(0u8..16, 0..=3),
+        proptest::collection::vec(0u8..16, 0..=2),
+        prop_oneof![Just(17u32), 60u32..400, Just(1_000_000u32)],
+    )
+        .prop_map(|(writes, reject_a, reject_b, max_file_size)| RejectCase { writes, reject_a, reject_b, max_file_size })
+}
+
+/// The store either takes all bytes of an append or rejects the call and takes none, and nothing
+/// crashes: so what a fresh rotator recovers from each log must be EXACTLY the entries whose
+/// `WalRotator::append` returned Ok on that log, in append order - no acknowledged entry hidden
+/// behind a rejected one, and no rejected entry surfacing later (in its own log or, through state
+/// shared between writers of one thread, in the other).
+fn check_rejected(c: &RejectCase, ctx: &mut CaseCtx<'_>) -> Result<(), String> {
+    let stores = [ImgStore::new(), ImgStore::new()];
+    stores[0].set_rejected_appends(c.reject_a.iter().map(|&i| i as usize));
+    stores[1].set_rejected_appends(c.reject_b.iter().map(|&i| i as usize));
+    let mut rots = Vec::new();
+    for st in &stores {
+        rots.push(WalRotator::new(st.clone(), c.max_file_size as usize).map_err(|e| format!("WalRotator::new: {}", e))?);
+    }
+    let mut accepted: [Vec<E>; 2] = [Vec::new(), Vec::new()];
+    let mut rejected: Vec<(usize, E)> = Vec::new();
+    let mut trace = Vec::new();
+    for (to_a, data, stamp) in &c.writes {
+        let log = if *to_a { 0 } else { 1 };
+        let entry = WalEntry { data: data.clone(), timestamp: *stamp, checksum: crc32(data) };
+        match rots[log].append(&entry) {
+            Ok(_) => {
+                accepted[log].push((data.clone(), *stamp));
+                trace.push(format!("log {} append (len={} stamp={}) Ok", log, data.len(), stamp));
+            }
+            Err(e) => {
+                rejected.push((log, (data.clone(), *stamp)));
+                trace.push(format!("log {} append (len={} stamp={}) Err({})", log, data.len(), stamp, e));
+            }
+        }
+    }
+    for r in rots.iter_mut() {
+        let _ = r.sync();
+    }
+    drop(rots);
+    for log in 0..2 {
+        // the faults are over: recovery reads through a store that rejects nothing
+        stores[log].set_rejected_appends(std::iter::empty());
+        let got = recover(&stores[log]).map_err(|e| format!("log {}: {}", log, e))?;
+        if got != accepted[log] {
+            let phantom = got.iter().find(|e| !accepted[log].contains(e));
+            return Err(format!(
+                "log {}: recovery returns {} but the entries whose append returned Ok are {}{}\n  writes:\n    {}",
+                log,
+                show_list(&got),
+                show_list(&accepted[log]),
+                match phantom {
+                    Some(e) if rejected.iter().any(|(_, r)| r == e) => format!(
+                        " - {} is an entry whose append was REJECTED (on log {}) without a byte written",
+                        show_entry(e),
+                        rejected.iter().find(|(_, r)| r == e).map(|(l, _)| *l).unwrap_or(9)
+                    ),
+                    Some(e) => format!(" - {} was never appended", show_entry(e)),
+                    None => " - an acknowledged entry is missing".to_string(),
+                },
+                trace.join("\n    ")
+            ));
+        }
+    }
+    if !rejected.is_empty() {
+        ctx.label("append_rejected");
+        if accepted.iter().any(|a| !a.is_empty()) {
+            ctx.nontrivial(c);
+        }
+        let last_reject = trace.iter().rposition(|t| t.contains("Err("));
+        if last_reject.map(|i| i + 1 < trace.len()).unwrap_or(false) {
+            ctx.label("accepted_append_after_a_rejected_one");
+        }
+    }
+    Ok(())
+}
+
 fn probe_case() -> ImageCase {
     ImageCase {
         entries: vec![
@@ -2352,6 +2450,12 @@ fn main() {
         "3..10 generated steps over {append 1..5 entries, sync, truncate_before(T), restart, crash (drop unsynced bytes) + restart} on one store, with a harness-side reference of (file, stamp, bytes): after every step a fresh rotator recovers exactly the reference in file order; truncation deletes no file holding a stamp > T nor the active file; no existing file name is ever created again",
     );
     s.run_cases("lifecycle", s.scale(10_000, 400_000), life_case, check_life);
+
+    s.describe_check(
+        "rejected_appends",
+        "2..12 appends written alternately to two logs (two stores, two rotators) from one thread, 0..3 append calls per store rejected with an I/O error and nothing written (entry or file-header appends), rotation threshold tiny / small / never: a fresh rotator recovers from each log exactly the entries whose append returned Ok, in order - nothing acknowledged is hidden, nothing rejected surfaces later in either log",
+    );
+    s.run_cases("rejected_appends", s.scale(20_000, 1_000_000), reject_case, check_rejected);
 
     s.describe_check(
         "actor_truncate",
